@@ -35,12 +35,28 @@ def specs():
                     "cipher_final": ("outinput", "r_cipher_final", I32, {2: ("n_fin", I32)}, []),
                     "cipher_cleanup": ("outinput", "r_cipher_cleanup", I32, {}, [])},
              oracles=["mac_size", "cipher_block_size"], oracle_arity={"mac_size": 1, "cipher_block_size": 1}),
+        dict(name="dec_decompress", named_free=True,
+             inputs=[M("zip"), ("c.inner_len", "inner_len"), ("c.inner_mem_len", "inner_mem_len"), ("c.inner", "inner_ptr"),
+                     ("c.inner_mem", "inner_mem_ptr"), ("malloc_ret", "malloc_ret")],
+             calls={"m_msg_set_err": seterr, "strdup": ("ignore", 1), "log_msg": ("ignore", 0),
+                    "zip_decompress_length": ("outinput", "r_unzip_length", I32, {}, [0, 2]),
+                    "zip_decompress_block": ("outinput", "r_unzip_block", I32, {2: ("n_unzip", I32)}, [0, 4])}),
     ]
 
 
 def enc_specs():
     M = lambda f: ("c.msg." + f, f)
     return [
+        dict(name="enc_mac",
+             inputs=[M("mac"), ("c.outer_len", "outer_len"), ("c.inner_len", "inner_len"), ("conf.mac_key_len", "mac_key_len"),
+                     ("c.outer", "outer_ptr"), ("c.inner", "inner_ptr"), ("conf.mac_key", "mac_key_ptr")],
+             calls={"m_msg_set_err": ("event", -1, [1]), "strdup": ("ignore", 1), "strdupf": ("ignore", 1), "log_msg": ("ignore", 0),
+                    "mac_size": ("oracle", [0]),
+                    "mac_init": ("outinput", "r_mac_init", I32, {}, [1, 3]),
+                    "mac_update": ("outinput", "r_mac_update", I32, {}, [1, 2]),
+                    "mac_final": ("outinput", "r_mac_final", I32, {2: ("n_final", I32)}, []),
+                    "mac_cleanup": ("outinput", "r_mac_cleanup", I32, {}, [])},
+             oracles=["mac_size"], oracle_arity={"mac_size": 1}),
         dict(name="enc_compress", cursors={"c.outer_zip_ref": "zipref"}, named_free=True,
              inputs=[M("zip"), ("c.inner_len", "inner_len"), ("c.inner_mem_len", "inner_mem_len"), ("c.inner", "inner_ptr"),
                      ("c.inner_mem", "inner_mem_ptr"), ("malloc_ret", "malloc_ret")],
